@@ -100,7 +100,7 @@ Qed.
 
 Lemma step_preserves st o r st' : memo_ok st -> step st o = (r, st') -> memo_ok st'.
 Proof.
-  intros Hm H. destruct o as [|rv|tn fn sg allow|tn sg allow|tn fn allow]; simpl in H.
+  intros Hm H. destruct o as [|rv|tn fn sg allow|tn sg allow|tn fn allow|sg]; simpl in H.
   - destruct (m_memo st) eqn:Em; [inversion H; subst; exact Hm|].
     destruct (validate_model (m_schema st)) eqn:Ev; inversion H; subst; unfold memo_ok; simpl; auto.
   - destruct (if rv then _ else _); inversion H; subst; exact Hm.
@@ -119,6 +119,7 @@ Proof.
     destruct (find_type _ tn) as [t|]; [|inversion H; subst; exact Hm].
     destruct (t_body t) as [|ifs fs dr| | | |]; try (inversion H; subst; exact Hm).
     destruct (find_last _ fs); inversion H; subst; unfold memo_ok; simpl; try exact Hm; discriminate.
+  - inversion H; subst. unfold memo_ok. simpl. discriminate.
 Qed.
 
 Lemma validate_fresh st r st' :
